@@ -56,9 +56,9 @@ class Gen:
         if self.cross and self.rng.random() < 0.35:
             in_class = not in_class          # deliberately misplaced item (mutated-input stream)
         tmpl, cb = self.rng.choice(CLASS_ITEMS if in_class else NS_ITEMS)
-        self.emit(tmpl.format(n=self.fresh()))
+        line = self.emit(tmpl.format(n=self.fresh()))
         if cb:
-            self.events.append(("item", cb))
+            self.events.append(("item", cb, line))
 
     def body(self, ctx, depth):
         """ctx in 'ns', 'extern', 'class'"""
@@ -118,15 +118,16 @@ class Gen:
             self.events.append(("close",))
             in_class = ctx == "class"
             if form == "trail":
-                self.emit("} v%d, *p%d;" % (n, n))
+                line = self.emit("} v%d, *p%d;" % (n, n))
                 cb = "on_class_field" if in_class else "on_variable"
-                self.events += [("item", cb), ("item", cb)]
+                self.events += [("item", cb, line), ("item", cb, line)]
             elif form == "typedef":
-                self.emit("} T%d;" % n)
-                self.events.append(("item", "on_typedef"))
+                line = self.emit("} T%d;" % n)
+                self.events.append(("item", "on_typedef", line))
             elif form == "anon_member":
-                self.emit("};")
-                self.events.append(("item", "on_class_field"))
+                cl = self.emit("};")
+                # implicit field of the anonymous member: its extent is the whole block
+                self.events.append(("item", "on_class_field", cl, line))
             else:
                 self.emit("};")
 
@@ -206,6 +207,7 @@ class Recorder:
 
     def __init__(self, line2id=None, skip_lines=(), raise_at=None, exc=None):
         self.stream = []
+        self.locs = []          # state.location at the time of each callback
         self.raw = []           # (name, state, payload)
         self.ids = {}           # id(state) -> block id
         self.keep = []
@@ -229,6 +231,7 @@ class Recorder:
             if self.raise_at is not None and idx == self.raise_at:
                 raise (self.exc or RuntimeError("boom"))
             self.keep.append(state)
+            self.locs.append(state.location)
             self.raw.append((name, state, payload[0] if payload else None))
             if name == "on_parse_start":
                 self.ids[id(state)] = 0
